@@ -32,7 +32,8 @@ def setup(ctx):
     ctx.rule = (
         "situations {pinned+same cert, unpinned (first use), pinned+changed cert, pinned+unparsable cert, changed "
         "cert on the second hop of a redirect} x operations {get, get with query, upload with token and 0 B..1 MiB "
-        "content, delete} x peers that read eagerly / after a delay / only after the client call has ended. "
+        "content, delete} x peers that read eagerly / after a delay / only after the client call has ended x one or "
+        "two attempts on the same client object. "
         "distinct = (situation, operation, content size class, peer reading mode, outcome)."
     )
     ctx.assumptions = [
@@ -176,21 +177,33 @@ def run(ctx):
                         content = bytes((i * 31) & 0xFF for i in range(size or 0))
                         mon.take()
 
+                        # the same client object is used for `attempts` calls in a row: a failed
+                        # verification must not leave anything behind that lets a later call through
+                        attempts = 1 + (k % 2 if situation in ("changed", "unparsable", "redirect-to-changed") else 0)
+                        client_box = {}
+
                         async def go():
-                            c = GeminiClient(timeout=6, trust_on_first_use=True, tofu_db_path=Path(dbp))
+                            c = client_box.get("c")
+                            if c is None:
+                                c = client_box["c"] = GeminiClient(timeout=6, trust_on_first_use=True, tofu_db_path=Path(dbp))
                             if op in ("get", "get-query"):
                                 return await c.get(url)
                             if op == "delete":
                                 return await c.delete(url, token="SECRETTOKEN")
                             return await c.upload(url, content, mime_type="application/octet-stream", token="SECRETTOKEN")
 
-                        try:
-                            resp = asyncio.run(go())
-                            res = ("response", resp.status)
-                        except CertificateChangedError:
-                            res = ("changed",)
-                        except BaseException as e:  # noqa: BLE001
-                            res = ("error", type(e).__name__, str(e)[:80])
+                        results = []
+                        for _attempt in range(attempts):
+                            try:
+                                resp = asyncio.run(go())
+                                res = ("response", resp.status)
+                            except CertificateChangedError:
+                                res = ("changed",)
+                            except BaseException as e:  # noqa: BLE001
+                                res = ("error", type(e).__name__, str(e)[:80])
+                            results.append(res)
+                        if any(r[0] == "response" for r in results):
+                            res = next(r for r in results if r[0] == "response")
                         state["go"].set()
                         events = mon.take()
                         peer.wait_idle(4)
@@ -201,7 +214,7 @@ def run(ctx):
                         must_fail = situation in ("changed", "unparsable", "redirect-to-changed")
                         pin_situation = situation
                         entry = "get" if op.startswith("get") else ("delete" if op == "delete" else "upload")
-                        wit = {"situation": situation, "operation": op, "content_size": size, "peer_mode": mode, "url": url, "result": res,
+                        wit = {"situation": situation, "operation": op, "content_size": size, "peer_mode": mode, "url": url, "result": res, "attempts_on_same_client": [list(r) for r in results],
                                "client_events": [list(map(str, e)) for e in events[:12]], "peer_received_len": len(received), "peer_received_head": received[:120],
                                "peer_handshakes": [r.get("handshake_ok") for r in recs]}
                         # ---- client-side order monitor
@@ -244,7 +257,8 @@ def run(ctx):
                             elif res[0] != "response":
                                 ctx.anomaly(f"control call failed: {res}")
                         sc = "0" if not size else ("small" if size <= 1000 else ("16K-100K" if size <= 100000 else ">=1MiB"))
-                        ctx.case((situation, op, sc, mode, res[0], bool(received)), True,
+                        ctx.count("monitor", "repeated_attempts_on_same_client", attempts - 1)
+                        ctx.case((situation, op, sc, mode, res[0], bool(received), attempts), True,
                                  sample={"situation": situation, "operation": op, "size": size, "peer": mode, "result": res, "peer_received": len(received), "events": [e[0] for e in events][:10]})
                         try:
                             os.unlink(dbp)
